@@ -77,10 +77,14 @@ class TrS:
                 return "(%d : Int)" % n.value, 'int'
             if n.value is None:
                 return "none", 'optstr'
+        if isinstance(n, ast.Tuple) and len(n.elts) == 2 and all(isinstance(e_, ast.Constant) and e_.value is None for e_ in n.elts):
+            return "none", 'optstrint'           # `return None, None`
         if isinstance(n, ast.Tuple) and len(n.elts) == 2:
             (a, ta), (b, tb) = self.expr(n.elts[0]), self.expr(n.elts[1])
             if ta == tb == 'str':
                 return "(%s, %s)" % (a, b), 'strpair'
+            if ta in ('str', 'char') and tb == 'int':     # `return token, next_index` (x[i] as a token is the one-character string)
+                return "(some (%s, %s))" % (a if ta == 'str' else "[%s]" % a, b), 'optstrint'
             raise Untranslatable("tuple of %s, %s" % (ta, tb))
         if isinstance(n, ast.Call) and isinstance(n.func, ast.Name) and n.func.id in CONSTRUCTORS and self.consts.get('__imports__', {}).get(n.func.id, '').startswith('shexer.model.'):
             # a model object built by the readers: IRI(content) / BNode(identifier) / Property(content) / Literal(content, elem_type)
@@ -252,6 +256,9 @@ class TrS:
                 if tx == 'char' and not args and f.attr == 'isnumeric':
                     self.assumptions.add("c.isnumeric() read as: c is an ASCII digit (other numeric code points are outside the documents in scope)")
                     return "(PyOps.isNumeric %s)" % x, 'bool'
+                if tx == 'str' and f.attr == 'split' and len(n.args) == 1 and isinstance(n.args[0], ast.Constant) and isinstance(n.args[0].value, str) \
+                        and len(n.args[0].value) == 1:
+                    return "(PyOps.splitChar %s %s)" % (x, lchar(n.args[0].value)), 'strlist'      # x.split(c) for a one-character separator
                 if tx == 'str' and f.attr == 'find' and len(args) == 2 and args[0][1] == 'str' and args[1][1] == 'int':
                     return "(PyOps.findAt %s %s %s)" % (x, args[0][0], args[1][0]), 'int'
                 if tx == 'str':
@@ -289,6 +296,12 @@ class TrS:
                     return "(%s).%s" % (x, "isSome" if isinstance(op, ast.IsNot) else "isNone"), 'bool'
                 if tx == 'str':     # a plain string is never None
                     return ("true" if isinstance(op, ast.IsNot) else "false"), 'bool'
+            if isinstance(op, (ast.In, ast.NotIn)) and isinstance(r, ast.Name) and isinstance(self.consts.get(r.id), tuple) and self.consts[r.id][0] == 'charlist':
+                a, ta = self.expr(l)
+                if ta == 'char':       # x[i] in ["a", "b"] for a module-level list of one-character strings
+                    e = "((%s).contains %s)" % (lstr(self.consts[r.id][1]), a)
+                    return (e if isinstance(op, ast.In) else "(!%s)" % e), 'bool'
+                raise Untranslatable("membership of a non-character in a list of characters")
             (a, ta), (b, tb) = self.expr(l), self.expr(r)
             if isinstance(op, (ast.Eq, ast.NotEq)) and ta == 'char' and isinstance(r, ast.Constant) and isinstance(r.value, str) and len(r.value) == 1:
                 e = "(%s == %s)" % (a, lchar(r.value))          # x[i] == "c": one-character strings are equal iff the characters are
@@ -460,6 +473,10 @@ class TrS:
                 and isinstance(test.comparators[0], ast.Constant) and test.comparators[0].value is None and isinstance(test.left, ast.Name) \
                 and self.env.get(test.left.id) in NARROWS:
             return test.left.id, isinstance(test.ops[0], ast.IsNot)
+        if isinstance(test, ast.Compare) and len(test.ops) == 1 and isinstance(test.ops[0], (ast.Is, ast.IsNot)) \
+                and isinstance(test.comparators[0], ast.Constant) and test.comparators[0].value is None and isinstance(test.left, ast.Attribute) \
+                and isinstance(test.left.value, ast.Name) and test.left.value.id == 'self' and self.env.get('self.' + test.left.attr) in NARROWS:
+            return 'self.' + test.left.attr, isinstance(test.ops[0], ast.IsNot)      # an attribute the method reads
         return None
 
     def flush(self, code):
@@ -666,7 +683,8 @@ class TrS:
                         return self.block(list(stmts_) + (tail if cont_needed or not self.terminates(stmts_) else []), ret)
                     finally:
                         self.env[name] = old
-                return "match %s with\n  | some %s => (do\n  %s)\n  | none => (do\n  %s)" % (name, name, branch(some_b, True), branch(none_b, False))
+                lv = ("self" + name[5:]) if name.startswith('self.') else name
+                return "match %s with\n  | some %s => (do\n  %s)\n  | none => (do\n  %s)" % (lv, lv, branch(some_b, True), branch(none_b, False))
             a = self.assigned([s])
             both = len(a) == 1 and None not in a and next(iter(a)) not in self.env and len(s.body) == 1 and len(s.orelse) == 1 \
                 and isinstance(s.body[0], ast.Assign) and isinstance(s.orelse[0], ast.Assign)      # first assignment in both branches: general path
@@ -687,7 +705,7 @@ class TrS:
         raise Untranslatable("stmt " + ast.dump(s)[:120])
 
 
-LEAN_TY = {'obj': 'PyOps.Obj', 'strpair': 'List Char × List Char', 'str': 'List Char', 'int': 'Int', 'bool': 'Bool', 'optstr': 'Option (List Char)', 'optint': 'Option Int', 'char': 'Char', 'matchpos': 'Int',
+LEAN_TY = {'optstrint': 'Option (List Char × Int)', 'obj': 'PyOps.Obj', 'strpair': 'List Char × List Char', 'str': 'List Char', 'int': 'Int', 'bool': 'Bool', 'optstr': 'Option (List Char)', 'optint': 'Option Int', 'char': 'Char', 'matchpos': 'Int',
            'strlist': 'List (List Char)', 'strdict': 'List (List Char × List Char)'}
 
 
